@@ -38,9 +38,9 @@ Step(e) ==
                 o == e.hs[h] IN
             CASE hd.st = "open" /\ ~hd.stale ->
                    F(o.cls = "ok" /\ SeqToSet(o.c0) = N.store[hd.n][hd.u].docs["c0"] /\ SeqToSet(o.c1) = N.store[hd.n][hd.u].docs["c1"]
-                       /\ o.dd = N.store[hd.n][hd.u].dd,
+                       /\ o.dd = N.store[hd.n][hd.u].dd /\ o.has1 = N.store[hd.n][hd.u].c1,
                      {"C13"} \cup (IF a.kind = "Drop" THEN {"C11"} ELSE {}), e, <<"open-handle-view", h, M.hs[a.h].st>>,
-                     <<N.store[hd.n][hd.u].docs["c0"], N.store[hd.n][hd.u].docs["c1"], N.store[hd.n][hd.u].dd>>, <<o.cls, o.c0, o.c1, o.dd>>)
+                     <<N.store[hd.n][hd.u].docs["c0"], N.store[hd.n][hd.u].docs["c1"], N.store[hd.n][hd.u].dd, N.store[hd.n][hd.u].c1>>, <<o.cls, o.c0, o.c1, o.dd, o.has1>>)
               [] hd.st = "open" /\ hd.stale ->
                    F(o.cls = "ok" /\ SeqToSet(o.c0) = N.store[hd.n][hd.u].docs["c0"], {"C13"}, e, <<"open-handle-view", h, "stale">>,
                      N.store[hd.n][hd.u].docs["c0"], <<o.cls, o.c0>>)
